@@ -57,7 +57,7 @@ SetupLits == <<0, 1, 2, 3, 5, 7, 10, -1, -4>>      \* right-hand sides of the ty
 StrLits == <<"a", "bc", "", "x y">>
 De == 2          \* depth of expressions
 
-RECURSIVE GenInt(_, _, _), GenBool(_, _, _), GenStr(_, _, _)
+RECURSIVE GenInt(_, _, _), GenBool(_, _, _), GenStr(_, _, _), HoleE(_, _), GenFStr(_, _)
 GenInt(G, d, r) ==
     LET opts == IF d = 0 THEN <<"lit", "var", "var">>
                 ELSE <<"lit", "var", "bin", "bin", "bin", "div", "call", "call2", "gf", "meth", "fld", "idx", "pow">>
@@ -92,15 +92,18 @@ GenBool(G, d, r) ==
       [] tag = "not"   -> LET a == GenBool(G, d - 1, r1) IN [x |-> Not(a.x), r |-> a.r]
       [] tag = "streq" -> LET a == GenStr(G, d - 1, r2) b == GenStr(G, d - 1, a.r) IN [x |-> Bin(Of(r1, <<"=", "!=">>), a.x, b.x), r |-> b.r]
 
-\* the holes of an interpolated string are variables or literals of any scalar type (no string literal inside a hole: KF-C02-1)
+\* the holes of an interpolated string: a variable, or an expression of any scalar type (operators are re-spelled in the target language)
 Hole(G, r) ==
     LET k == Pick(r, 3) r1 == Nx(r) IN
     IF k = 1 /\ Len(G.sv) > 0 THEN Of(r1, G.sv) ELSE IF k = 2 /\ Len(G.bv) > 0 THEN Of(r1, G.bv)
     ELSE IF Len(G.iv) > 0 THEN Of(r1, G.iv) ELSE I(Of(r1, IntLits))
+HoleE(G, r) ==      \* [x, r]
+    LET k == Pick(r, 6) r1 == Nx(r) IN
+    CASE k = 1 -> GenInt(G, 1, r1) [] k = 2 -> GenBool(G, 1, r1) [] k = 3 -> GenStr(G, 0, r1) [] OTHER -> [x |-> Hole(G, r1), r |-> Nx(Nx(r1))]
 GenFStr(G, r) ==
-    LET r1 == Nx(r) r2 == Nx(r1) r3 == Nx(r2) IN
-    [x |-> FStr(IF Pick(r, 2) = 1 THEN <<T(Of(r1, <<"n=", "v ", "">>)), Hole(G, r2)>>
-                ELSE <<Hole(G, r1), T(Of(r2, <<" and ", "-", ", ">>)), Hole(G, r3), T("!")>>), r |-> Nx(Nx(r3))]
+    LET r1 == Nx(r) h1 == HoleE(G, Nx(r1)) h2 == HoleE(G, h1.r) IN
+    [x |-> FStr(IF Pick(r, 2) = 1 THEN <<T(Of(r1, <<"n=", "v ", "">>)), h1.x>>
+                ELSE <<h1.x, T(Of(r1, <<" and ", "-", ", ">>)), h2.x, T("!")>>), r |-> Nx(h2.r)]
 GenStr(G, d, r) ==
     LET opts == IF d = 0 THEN <<"lit", "var", "var">> ELSE <<"lit", "var", "cat", "cat", "fstr", "fstr", "greet">>
         t0 == Of(r, opts)
